@@ -2,6 +2,10 @@
 // RateLimit's fields and private methods, the same way `#[cfg(test)] mod tests` would have it.
 #![allow(dead_code, unused_imports)]
 use super::*;
+// Named explicitly so that this probe does not depend on which names the parent file happens to import
+// (a clean-up of an unused import there must not break the hooked build).
+#[allow(unused_imports)]
+use tokio::time::sleep;
 use serde_json::{json, Value};
 use std::time::{Duration, Instant};
 
